@@ -130,6 +130,29 @@ def build(case: dict, n: int) -> dict | None:
             pre.append(ASSIGN("g", LIST(I(1), I(2))))
             pre.append(ASSIGN("cg", I(0)))
             body += [AUG("cg", "+", I(1)), IF([(CMP(V("cg"), ("<=", I(2))), [APPEND("g", V("cg"))])]), WRITE(INDEX(V("g"), I(-1))), WRITE(INDEX(V("g"), I(0)))]
+        elif op == "self-assign-then-index":
+            # re-assigning a list from itself leaves it as it is (the assignment helper must not clear its own source)
+            need("a"); body += [ASSIGN("a", V("a")), WRITE(INDEX(V("a"), I(0))), WRITE(INDEX(V("a"), I(-1)))]
+        elif op == "keep-or-replace-then-index":
+            # `a = b if c else a`: on the passes where the condition selects the target itself this is a self-assignment
+            need("a"); need("b")
+            body += [ASSIGN("a", IFEXP(CMP(AREAD(), (">", I(0))), V("b"), V("a"))), WRITE(INDEX(V("a"), I(-1))), WRITE(INDEX(V("a"), I(0)))]
+            ain.append(0)
+        elif op == "string-list-copy-then-grow":
+            # a list of strings (each element owns a buffer of its own) is copied to a new name; both copies live on and change
+            if "sw" in have:
+                return None
+            have.add("sw")
+            body += [ASSIGN("sw", LIST(S("a first string that is long"), S("a second string, also long"))), ASSIGN(f"sv{k}", V("sw")),
+                     APPEND(f"sv{k}", S("a third one, appended to the copy")), APPEND("sw", S("and one for the original list")),
+                     WRITE(INDEX(V("sw"), I(0))), WRITE(INDEX(V(f"sv{k}"), I(-1))), WRITE(INDEX(V("sw"), I(-1)))]
+        elif op == "string-list-through-function":
+            if "sl" in have:
+                return None
+            have.add("sl")
+            defs["lastof"] = DEF(["ws"], [RETURN(INDEX(V("ws"), I(-1)))])
+            defs["mkwords"] = DEF([], [RETURN(LIST(S("one long enough to own a buffer"), S("two long enough to own a buffer")))])
+            body += [ASSIGN("sl", CALL("mkwords")), WRITE(CALL("lastof", V("sl"))), APPEND("sl", S("three, long enough as well, yes")), WRITE(CALL("lastof", V("sl")))]
         elif op == "string-concat":
             need("s"); body.append(ASSIGN("s", BIN("+", V("s"), S("x"))))
         elif op == "string-len":
